@@ -1,8 +1,8 @@
-use std::{cmp, collections::VecDeque, marker::PhantomData};
+use std::{cmp, marker::PhantomData};
 
-use daggy::{petgraph::visit::IntoNodeReferences, Dag, Walker};
+use daggy::{petgraph::visit::Topo, Dag, Walker};
 
-use crate::{Edge, FnId, FnIdInner, Rank};
+use crate::{Edge, FnIdInner, Rank};
 
 /// Calculates the rank of each function.
 pub(super) struct RankCalc<F>(PhantomData<F>);
@@ -18,19 +18,13 @@ impl<F> RankCalc<F> {
     pub(super) fn calc(graph: &Dag<F, Edge, FnIdInner>) -> Vec<Rank> {
         let mut ranks = vec![Rank(0); graph.node_count()];
 
-        // Begin with root nodes
-        let mut fn_ids = graph
-            .node_references()
-            .filter_map(|(fn_id, _function)| {
-                if Self::is_root_node(graph, fn_id) {
-                    Some(fn_id)
-                } else {
-                    None
-                }
-            })
-            .collect::<VecDeque<FnId>>();
-
-        while let Some(fn_id) = fn_ids.pop_front() {
+        // Visit each function once, in topological order: when a function is
+        // visited all of its parents have been, so its rank is final.
+        //
+        // Re-queueing children on every visit of a parent would walk every path
+        // from the roots, which is exponential for dense or layered graphs.
+        let mut topo = Topo::new(graph);
+        while let Some(fn_id) = topo.next(graph) {
             #[cfg(feature = "verif_hooks")]
             crate::verif_hooks::rank_calc_visit();
             let fn_rank = ranks[fn_id.index()];
@@ -45,16 +39,10 @@ impl<F> RankCalc<F> {
                     // Update child rank to be the greater of any previously calculated rank, and
                     // the rank computed from this iteration.
                     ranks[child_fn_id.index()] = cmp::max(child_rank_existing, child_rank_maybe);
-
-                    fn_ids.push_back(child_fn_id);
                 });
         }
 
         ranks
-    }
-
-    fn is_root_node(graph: &Dag<F, Edge, FnIdInner>, fn_id: FnId) -> bool {
-        graph.parents(fn_id).walk_next(graph).is_none()
     }
 }
 
